@@ -730,7 +730,7 @@ def run(ctx):
         keys_seen.add(key)
         viols.append(violation(key, what, found, **payload))
 
-    types, failures = reflect()
+    types, import_failures = reflect()
     if not types:
         add("reflection:no-types", "no TLVStruct subclass found in the aiohomekit package", False)
         return dict(coverage=cov.to_dict(), violations=viols)
@@ -974,7 +974,7 @@ def run(ctx):
                                     "other fields unset, list levels with 1 and 2 elements; raw iterator/array: all byte strings of length <= 2 and "
                                     "all strings of length <= 5 over {0,1,2,255}")
     cov.extra["reflected_types"] = wf_info
-    cov.extra["import_failures"] = failures
+    cov.extra["import_failures"] = import_failures
     cov.extra["domain"] = dict(
         wf_schema="distinct one-byte item types per struct; a struct used as a list element has no item type 0; any nesting depth",
         fits_msg="ints in range of their width; enum values are members < 256; strings valid UTF-8; every SET string/bytes/list/"
